@@ -30,7 +30,7 @@ TRUSTED_BASE = [
     "harness/p9/c01_codec_test.go (reflection fill/dump of message structs)",
 ]
 
-SHARD = 400
+SHARD = 200
 CHUNK = 24
 
 
@@ -186,7 +186,9 @@ def coq_batch(ctx, name, text, prints, timeout=900):
         f.write(text)
     import time
     t = time.time()
-    rc, out = vlib.sh(["coqtop", "-q", "-batch", "-Q", ".", vlib.LOGICAL] + COQ_W + ["-l", os.path.join("cases", name + ".v")], cwd=vlib.COQ, timeout=timeout)
+    cmd = "ulimit -s 4000000 2>/dev/null || ulimit -s unlimited 2>/dev/null; exec coqtop -q -batch -Q . %s %s -l %s" % (
+        vlib.LOGICAL, " ".join(COQ_W), os.path.join("cases", name + ".v"))
+    rc, out = vlib.sh(["bash", "-c", cmd], cwd=vlib.COQ, timeout=timeout)
     ctx.log.append("[coqtop cases/%s.v] rc=%d %.1fs\n%s" % (name, rc, time.time() - t, out[-3000:] if rc else out[-600:]))
     if rc != 0 or "Error" in out:
         ctx.harness_broken("cases/%s.v does not evaluate (model and harness out of step)" % name, out)
@@ -245,7 +247,7 @@ def evaluate(ctx, obs, schema, base="C01_cases"):
     for i in range(0, len(obs), SHARD):
         cases = ";\n  ".join("(%s)" % to_case(o) for o in obs[i:i + SHARD])
         t = HEADER % (" Codec.GenTables" if have_gen else "", sname)
-        t += "Definition cases : list c01case := Eval vm_compute in map (to_case sc) [\n  %s\n].\n" % cases
+        t += "Definition ccases : list ccase := [\n  %s\n].\nDefinition cases : list c01case := map (to_case sc) ccases.\n" % cases
         t += "Definition B := Eval vm_compute in bad_cases cases.\nPrint B.\n"
         t += "Definition P := Eval vm_compute in property_failures cases.\nPrint P.\n"
         if have_gen:
